@@ -21,7 +21,7 @@ CLAIMS.update({
     "C08": dict(cat="model_checking", ref="6/C08", technique=_BATCH_TECH + "; liveness under weak fairness", note=_BATCH_NOTE,
         text="TLC checks liveness of the receiver design under weak fairness (every registered flush fires, blocked senders wake, sender drop leads to drain and termination, every accepted item is eventually done) and the safety side (retry budget, bounded back-off, callbacks at most once); replays detect hangs of the real code step by step and compare retry/delay/metric behaviour; level-A validation requires bounded attempts, non-decreasing bounded back-off, callbacks once, Exit only when drained; blocking_flush/blocking_send are called from plain, tokio multi-thread worker, current-thread and blocking-pool contexts against live and stalled receivers under a watchdog (a panic or hang is an event the specification has no action for)."),
     "C09": dict(cat="model_checking", ref="6/C09", technique=_BATCH_TECH, note=_BATCH_NOTE,
-        text="TLC checks Bounded (queue <= capacity), the overflow rule and SendNeverWaits (Send enabled in every receiver state) on the design; every transition is forced on the real code with the queue length observed under the lock after every send; level-A validation decides each Send/TrySend/SendRet event: truncation iff the queue was full, new item kept, one count per truncation, fallible/blocking sends enqueue or hand the item back, including a receiver that never runs or is stalled (kill / stalled-processor scenarios)."),
+        text="TLC checks Bounded (queue <= capacity), the overflow rule and SendNeverWaits (Send enabled in every receiver state) on the design; every transition is forced on the real code with the queue length observed under the lock after every send; level-A validation decides each Send/TrySend/SendRet event: truncation iff the queue was full, new item kept, one count per truncation, fallible/blocking sends enqueue or hand the item back, including a receiver that never runs or is stalled (kill / stalled-processor scenarios). Carry-through to the emitters' own channels: OtlpChan.tla (len counts events) and FileChan.tla (what emit_file's channel keeps alive is what is pending: the eager behaviours are replayed on a real FileSet with a parked worker and the live heap is measured after every step)."),
 })
 
 CLAIMS.update({
@@ -52,8 +52,8 @@ CLAIMS.update({
         text="TLC explores every emitter/worker interleaving and every bounded collector fault script of the export design (AtLeastOnce, ExactlyOnceWhenClean, ResendSame, FreshConnAfterBreak, NoSilentLoss, Grouping; liveness FlushCompletes; the double-pop design must violate AtLeastOnce); the generated scenarios are crossed with HTTP/JSON, HTTP/protobuf, gRPC x gzip x signal subsets and run on real emitters against a collector that acks, rejects (5xx, grpc-status in trailer or trailers-only), stalls, resets before/after reading or refuses; every recorded trace (Emit, Req with decoded event ids, Connect, FlushRet) is decided by TLC against the level-A monitor, including batches above the real 1 MiB limit and one-signal-down scenarios; a corrupted trace must be rejected on every run.",
         note="uses guarded hooks emit_otlp::verif (request size limit, request timeout) and emit_batcher::verif::set_delay_scale; level B models one signal, SignalsIndependent and FlushCompletes are judged at level A with wall-clock margins; retry-budget exhaustion out of scope; trusts the harness collector/decoder, prost-generated types, TLC"),
     "C14": dict(cat="model_checking", ref="6/C14",
-        technique="TLA+ spec OtlpRoute.tla: the TryMetrics/TryTraces/TryLogs/Discard emit path as a state machine checked by TLC to equal the statement's Route on the whole abstract domain; every case replayed as one tagged event on a real Otlp emitter",
-        text="TLC enumerates kind spelling x extent x metric-value shape x aggregation x the 8 signal subsets as initial states and checks RouteRefines, DiscardCounted, OnlyConfigured, SentOnce on the transcription of the encoders' decline conditions; each case is then sent as one tagged event through a real emit_otlp::Otlp per signal subset and transport to the loopback collector: the endpoint that received the tag exactly once and the event_discarded delta must be a route the statement permits.",
+        technique="TLA+ specs OtlpRoute.tla (the TryMetrics/TryTraces/TryLogs/Discard emit path as a state machine checked by TLC to equal the statement's Route on the whole abstract domain) and OtlpCount.tla (the discard counter under every interleaving of concurrent emitters); every case replayed as one tagged event, every script on real threads, on a real Otlp emitter",
+        text="TLC enumerates kind spelling x extent x metric-value shape x aggregation x the 8 signal subsets as initial states and checks RouteRefines, DiscardCounted, OnlyConfigured, SentOnce on the transcription of the encoders' decline conditions; each case is then sent as one tagged event through a real emit_otlp::Otlp per signal subset and transport to the loopback collector: the endpoint that received the tag exactly once and the event_discarded delta must be a route the statement permits. The accounting clause under concurrency is OtlpCount.tla: every interleaving of threads emitting through one emitter counts each discarded event exactly once (a load/store counter must fail); its scripts are run on real threads with each step repeated 50 000 times.",
         note="one concrete value per abstract class; lenient kind spellings and empty sequences are don't-cares; collector always acks; trusts the harness collector/decoder and prost-generated types"),
 })
 
